@@ -155,14 +155,24 @@ fn gen_tags(rng: &mut Rng, has_rg: bool) -> String {
     if rng.chance(1, 3) {
         t.push_str(&format!("\tXS:Z:{}", rng.pick(&["x", "hello world", "a:b", "CRAM", "BAM"])));
     }
-    if rng.chance(1, 4) {
-        t.push_str(&format!("\tXF:f:{}", rng.pick(&["0", "1.5", "-2.25", "1024", "0.125"])));
+    if rng.chance(1, 3) {
+        if rng.chance(1, 3) {
+            t.push_str(&format!("\tXF:f:{}", rng.pick(&["0", "1.5", "-2.25", "1024", "0.125"])));
+        } else {
+            t.push_str(&format!("\tXF:f:{}", gen_float(rng)));
+        }
     }
     if rng.chance(1, 4) {
         t.push_str(&format!("\tXA:A:{}", rng.pick(&["a", "Z", "!", "~"])));
     }
     if rng.chance(1, 4) {
-        t.push_str(*rng.pick(&["\tXB:B:c,-1,0,1", "\tXB:B:S,0,65535", "\tXB:B:i,-70000,70000", "\tXB:B:f,1.5,-0.5", "\tXB:B:C,1"]));
+        if rng.chance(1, 4) {
+            let n = rng.range(1, 4);
+            let vals: Vec<String> = (0..n).map(|_| gen_float(rng)).collect();
+            t.push_str(&format!("\tXB:B:f,{}", vals.join(",")));
+        } else {
+            t.push_str(*rng.pick(&["\tXB:B:c,-1,0,1", "\tXB:B:S,0,65535", "\tXB:B:i,-70000,70000", "\tXB:B:f,1.5,-0.5", "\tXB:B:C,1"]));
+        }
     }
     if rng.chance(1, 6) {
         t.push_str("\tXH:H:1AE301");
@@ -311,14 +321,107 @@ impl Spec {
 // ---------------------------------------------------------------------------------------------
 // Canonical form at the SAM data-model level: the SAM line the (specific) SAM writer emits.
 
+// Float fields are NOT taken from the writer's text (that would make the SAM writer its own
+// judge): they are replaced by the bit patterns of the values the record hands out.
 pub fn canon_line(header: &sam::Header, rec: &dyn sam::alignment::Record) -> io::Result<Vec<u8>> {
+    use sam::alignment::record::data::field::{Value, value::Array};
     let mut w = sam::io::Writer::new(Vec::new());
     w.write_alignment_record(header, rec)?;
     let mut v = w.into_inner();
     if v.last() == Some(&b'\n') {
         v.pop();
     }
-    Ok(v)
+    // the float values of the record, field by field in iteration (= writing) order
+    let mut floats: Vec<Vec<u32>> = Vec::new();
+    let data = rec.data();
+    for item in data.iter() {
+        let (_, value) = item?;
+        match value {
+            Value::Float(f) => floats.push(vec![f.to_bits()]),
+            Value::Array(Array::Float(vals)) => {
+                let mut b = Vec::new();
+                for x in vals.iter() {
+                    b.push(x?.to_bits());
+                }
+                floats.push(b);
+            }
+            _ => {}
+        }
+    }
+    if floats.is_empty() {
+        return Ok(v);
+    }
+    let mut it = floats.into_iter();
+    let cols: Vec<Vec<u8>> = v
+        .split(|&c| c == b'\t')
+        .enumerate()
+        .map(|(i, c)| {
+            if i >= 11 && c.len() >= 5 && (&c[2..5] == b":f:" || c[2..].starts_with(b":B:f")) {
+                let bits = it.next().unwrap_or_default();
+                let mut o = c[..if &c[2..5] == b":f:" { 5 } else { 6 }].to_vec();
+                let txt: Vec<String> = bits.iter().map(|b| format!("#{b:08x}")).collect();
+                if c[2..].starts_with(b":B:f") && !txt.is_empty() {
+                    o.push(b',');
+                }
+                o.extend_from_slice(txt.join(",").as_bytes());
+                o
+            } else {
+                c.to_vec()
+            }
+        })
+        .collect();
+    Ok(cols.join(&b'\t'))
+}
+
+/// the same substitution on the harness' own SAM text (float text parsed by Rust's f32 parser)
+pub fn bits_of_text_line(line: &str) -> Vec<u8> {
+    let cols: Vec<String> = line
+        .split('\t')
+        .enumerate()
+        .map(|(i, c)| {
+            let b = c.as_bytes();
+            if i >= 11 && b.len() >= 5 && &b[2..5] == b":f:" {
+                format!("{}#{:08x}", &c[..5], c[5..].parse::<f32>().map(|f| f.to_bits()).unwrap_or(0xffff_ffff))
+            } else if i >= 11 && b.len() >= 6 && b[2..].starts_with(b":B:f") {
+                let vals: Vec<String> = c[6..].split(',').filter(|x| !x.is_empty()).map(|x| format!("#{:08x}", x.parse::<f32>().map(|f| f.to_bits()).unwrap_or(0xffff_ffff))).collect();
+                if vals.is_empty() { c[..6].to_string() } else { format!("{},{}", &c[..6], vals.join(",")) }
+            } else {
+                c.to_string()
+            }
+        })
+        .collect();
+    cols.join("\t").into_bytes()
+}
+
+/// a finite f32 from its bit pattern: boundary constants and random bits, as the shortest decimal
+/// text that parses back to the same bits (Rust's Display)
+fn gen_float(rng: &mut Rng) -> String {
+    const K: &[u32] = &[
+        0x3f80_0001, // 1.0000001
+        0x4b7f_ffff, // 16777215
+        0x3dfc_d6ea, // 0.12345679
+        0x7f7f_ffff, // f32::MAX
+        0xff7f_ffff, // f32::MIN
+        0x0080_0000, // smallest normal
+        0x0000_0001, // smallest subnormal
+        0x8000_0000, // -0
+        0x3eaa_aaab, // 1/3
+        0x4048_f5c3, // 3.14
+        0x3f7f_ffff, // largest below 1
+        0x4b80_0000, // 2^24
+        0x5f00_0000, // 2^63
+    ];
+    let bits = if rng.chance(1, 3) {
+        *rng.pick(K)
+    } else {
+        loop {
+            let b = rng.next() as u32;
+            if (b >> 23) & 0xff != 0xff {
+                break b;
+            }
+        }
+    };
+    format!("{}", f32::from_bits(bits))
 }
 
 pub fn canon_header(header: &sam::Header) -> io::Result<Vec<u8>> {
@@ -509,9 +612,10 @@ fn prepare_spec(spec: Spec) -> Result<Prepared, (String, String)> {
             Err(e) => return bad("harness-spec-unwritable", format!("{e}")),
         }
     }
-    // the canonical lines are the lines of the spec (the generator writes canonical SAM)
+    // the canonical lines are the lines of the spec (the generator writes canonical SAM; float
+    // fields are compared by the bit pattern Rust's own parser assigns to the text)
     for (a, b) in canon.iter().zip(&spec.lines) {
-        if a != b.as_bytes() {
+        if *a != bits_of_text_line(b) {
             return bad("harness-spec-not-canonical", format!("`{}` vs `{}`", show(a), b));
         }
     }
